@@ -268,7 +268,7 @@ func GenBase(t *rapid.T, label string) *Hello {
 // GenALPN draws 0..4 protocol names of 1..255 bytes.
 func GenALPN(t *rapid.T, label string) []string {
 	n := rapid.IntRange(0, 4).Draw(t, label+"_n")
-	pool := []string{"h2", "http/1.1", "h3", "acme-tls/1", "dot"}
+	pool := []string{"h2", "http/1.1", "h3", "acme-tls/1", "dot", "\x8a\x8a", "\x0a\x0a", "h3-29"} // incl. RFC 8701 reserved ids
 	var out []string
 	for i := 0; i < n; i++ {
 		if rapid.IntRange(0, 4).Draw(t, label+"_kind") == 0 {
